@@ -81,6 +81,14 @@ PROPS = {
         "level_text": "Machine-checked theorems (Lean 4): for every binary and unary operator and all operand values the evaluator's TYPE MISMATCH coincides with the analyzer's type rule and results have the analysed type; both walkers use the same operator tables in the same tier order. Statement- and program-level soundness/completeness are not yet proved; the check rests for them on the correspondence slice and the oracle (straight-line lines: analysis error => execution from a fresh state fails; generated programs: no analysis error => no syntax/type/undefined-line failure under three seeds / input scripts).",
         "level_note": "PARTIAL proof.",
     },
+    "C19": {
+        "what": "adapter model: NEW yields exactly a fresh interpreter and the transient state never survives a returning call; a failing call latches the core's error text (with source line and caret for start), a succeeding one leaves the latch empty; the reported state is the core's (Errored when latched); output records are handed over in order; calling with an error latched is the trap",
+        "theorems": ["new_is_fresh", "replaced_not_transient", "start_cases", "start_traps_when_latched", "continue_cases", "state_faithful", "output_faithful"],
+        "open": ["no_trap over arbitrary page event sequences (invariant: latch non-empty => a timer callback is pending; needs C01's no-panic invariant of the core)", "Page-level theorems about loader and state handler"],
+        "slices": ["c19"],
+        "level_text": "Machine-checked theorems (Lean 4) about the adapter model (transliteration of abasic-web/src/lib.rs): freshness after NEW, never exposing the transient state, latch behaviour, faithful state and output. The trap-freedom theorem over all page event sequences is not yet proved; the check rests for it on the correspondence slice: the REAL JsInterpreter (the crate is also an rlib) driven natively through a Rust transliteration of the page's loader and state handler (main.ts) over generated event sequences, compared with the model of adapter + page, and on the lock-step oracle (a plain core interpreter driven through the same page script must show exactly the same records, states and timer callbacks; no trap).",
+        "level_note": "PARTIAL proof. The transliteration of main.ts (harness/src/web.rs and Front.lean) is hand-written; wasm-bindgen glue and the DOM are not modelled; the TS repair 4845820 is mirrored in both transliterations.",
+    },
     "C20": {
         "what": "byte->UTF-16 column conversion stays inside the line and is monotone for every line and offset; protocol line splitting gives terminator-free lines and at least one line; token types are in the legend; encoded tokens fit their line",
         "theorems": ["col_in_bounds", "col_monotone", "range_in_line", "col_of_prefix", "split_no_terminators", "split_nonempty", "type_in_legend", "encoded_token_ok"],
